@@ -604,6 +604,8 @@ def r14_alias_never_replaces_a_real_binding(ctx):
 
 
 def check(ctx):
+    from .persist_common import writer_replaces_the_whole_file
+    writer_replaces_the_whole_file(ctx, 'C01.R15', 'shared with C10.R10: ')
     r1_typestate(ctx)
     r2_pipeline(ctx)
     r5_ownership_table(ctx)
